@@ -500,6 +500,34 @@ func (s *Server) handleUpdateService(
 		}
 	}
 
+	// Node checks are attached to every instance of a node, so the loop above only notices a
+	// deleted node check through a stored instance of this service that is still in the snapshot.
+	// When the instance ID on a node was replaced, or the node was so far only used by other
+	// services of the peer, no such instance exists: reconcile the node checks of every node in
+	// the snapshot against the store directly.
+	for nodeName, nodeSnap := range snap.Nodes {
+		nodeMeta := structs.NodeEnterpriseMetaInPartition(sn.PartitionOrDefault())
+		_, storedNodeChecks, err := s.GetStore().NodeChecks(nil, nodeName, nodeMeta, peerName)
+		if err != nil {
+			return fmt.Errorf("failed to read checks of node %q: %w", nodeName, err)
+		}
+		for _, chk := range storedNodeChecks {
+			if chk.ServiceID != "" {
+				continue
+			}
+			inSnapshot := false
+			for _, svcSnap := range nodeSnap.Services {
+				if _, ok := svcSnap.Checks[chk.CheckID]; ok {
+					inSnapshot = true
+					break
+				}
+			}
+			if !inSnapshot {
+				deletedNodeChecks[nodeCheckTuple{checkID: chk.CheckID, node: chk.Node}] = struct{}{}
+			}
+		}
+	}
+
 	// Delete all deduplicated node checks.
 	for chk := range deletedNodeChecks {
 		nodeMeta := structs.NodeEnterpriseMetaInPartition(sn.PartitionOrDefault())
